@@ -13,6 +13,14 @@ NOTE = ("Trusted base: clang 14 front end + CFG builder on the flags of the comp
 
 CLAIMS = {
     # pid: (technique, level text, design_ref)
+    "C11": ("inter-procedural global-state analysis over the resolved call graph: per location, upward-exposed loads from do_source_file's entry (must-initialise summaries) and may-return-dirty summaries specialised on bool literals at call sites; must-pass-through for the per-file cleanup",
+            "For each of the ~48 global locations that per-file code both writes and reads (cp_data_t fields, namespace/class/function "
+            "statics, the option values) the check shows that no read can see a value left by a previous file, or that every return of "
+            "do_source_file leaves it at its initial zero/empty value; 22 locations are reviewed exceptions (observer state, "
+            "count-indexed arrays, scratch buffers), each a named symbol with its reason in rules/exceptions.json. Every path through "
+            "do_source_file reaches uncrustify_end, which empties the chunk list and undoes a pending Qt option override. This is a "
+            "statement over all file sequences, which pairwise sampling cannot give. Heap state reachable only through pointers and "
+            "stores through reference aliases are outside the analysis.", "DESIGN.md section 4 C11"),
     "C12": ("guard analysis (dominating-edge facts incl. latch flags and a propositional step over main's option rejection) on do_source_file/main; who-may-write for the counter and both sinks; structural check of bout_content_matches",
             "Every file-creating event of do_source_file and main's stdout redirection is shown control-dependent on !do_check; the "
             "failure counter is incremented exactly under do_check && !bout_content_matches on every returning path after output_text "
